@@ -8,7 +8,8 @@ Open Scope Z_scope.
 (* ---------- resource balance: every successful Open is closed, the lock is given back ---------- *)
 Definition open_pc (p : pc) : bool :=
   match p with
-  | PCond | PGetver | PSetver | PWrite | PRead | PSize | PClose | PCSetver | PCWrite | PCClose => true
+  | PCond | PGetver | PSetver | PWrite | PRead | PSize | PClose | PCSetver | PCWrite | PCClose
+  | PPackLoop | PPackRead | PPackWrite | PPackPad | PPackPadWrite => true
   | _ => false
   end.
 
@@ -147,7 +148,7 @@ Qed.
 
 (* ---------- witnesses on the model of the current code ---------- *)
 Definition op_setversion_stale : opd :=
-  {| o_kind := KSetVersion; o_tract := 0; o_a1 := 3; o_a2 := 2; o_a3 := 0; o_data := []; o_srcs := [] |}.
+  {| o_kind := KSetVersion; o_tract := 0; o_a1 := 3; o_a2 := 2; o_a3 := 0; o_data := []; o_srcs := []; o_pack := [] |}.
 Definition g_one_tract : gst :=
   {| g_busy := []; g_tracts := [(0, 0)]; g_files := [(0, {| f_fd := 1; f_ver := Some 2; f_data := [1; 2] |})];
      g_nextfd := 2; g_opens := 0; g_closes := 0 |}.
@@ -165,8 +166,8 @@ Lemma f3_repaired :
 Proof. vm_compute. auto. Qed.
 
 (* GCTracts' gone path deletes without the tract lock: its Delete can fall inside a writer's section *)
-Definition op_write : opd := {| o_kind := KWrite; o_tract := 0; o_a1 := 2; o_a2 := 0; o_a3 := 0; o_data := [9]; o_srcs := [] |}.
-Definition op_gone : opd := {| o_kind := KGCGone; o_tract := 0; o_a1 := 0; o_a2 := 0; o_a3 := 0; o_data := []; o_srcs := [] |}.
+Definition op_write : opd := {| o_kind := KWrite; o_tract := 0; o_a1 := 2; o_a2 := 0; o_a3 := 0; o_data := [9]; o_srcs := []; o_pack := [] |}.
+Definition op_gone : opd := {| o_kind := KGCGone; o_tract := 0; o_a1 := 0; o_a2 := 0; o_a3 := 0; o_data := []; o_srcs := []; o_pack := [] |}.
 Lemma gcgone_witness :
   let s' := run_sched repaired (g_one_tract, [new_thread op_write; new_thread op_gone])
                       [(0%nat, 0); (0%nat, 0); (0%nat, 0); (0%nat, 0); (1%nat, 0); (1%nat, 0)] in
